@@ -159,6 +159,28 @@ func (r *c03run) run() error {
 		}
 	}
 
+	// (2b) the same sequences trickling in one byte per read with pauses
+	// shorter than the escape timeout (the whole sequence taking longer than
+	// it): still exactly one key
+	for i, ks := range seqs {
+		if len(ks.Seq) < 3 || (!thorough && i%6 != int(r.seed%6)) {
+			continue
+		}
+		gap := []int{20, 30, 45}[r.rng.Intn(3)]
+		for k := 0; k < len(ks.Seq); k++ {
+			w.feedHold([]byte{ks.Seq[k]})
+			if k+1 < len(ks.Seq) {
+				w.S.Advance(hx.Ms(gap))
+			}
+		}
+		w.settle()
+		all := w.take()
+		r.cases++
+		if len(all) != 1 || !ks.accepts(all[0]) {
+			r.fail("C03/key", "slow", ks.Seq, gap, "key %s arriving one byte per read, %d ms apart, decoded to %v", ks.String(), gap, all)
+		}
+	}
+
 	// (3) xterm modifier encodings.
 	var gk []string
 	for s := range gen {
